@@ -5,7 +5,7 @@ from __future__ import annotations
 
 import ast
 
-from ..astq import (arg, const, ext_names, handler_catches_all, handler_classes, inside, is_name, loc, lock_withs,
+from ..astq import (comes_before, arg, const, ext_names, handler_catches_all, handler_classes, inside, is_name, loc, lock_withs,
                     names_in, stmt_of, in_body)
 from ..cfg import CFG, any_call_may_raise
 from ..model import AnalysisError, Func, head, norm
@@ -800,7 +800,12 @@ def rule_initial_ready_set(ctx, rid, r):
             if any(o[0] == "class" and o[1] in r.queue_classes for o in tg) or any(
                     o[0] in ("func",) and o[1].module is qf.module and "queue" in o[1].name.lower() for o in tg):
                 n_ctor += 1
-                ok = bool(c.args) and is_name(c.args[0], p)
+                a0 = c.args[0] if c.args else None
+                # the seed itself, or an order/multiset-preserving container built from it (deque(seed), list(seed), tuple(seed))
+                while isinstance(a0, ast.Call) and len(a0.args) == 1 and not a0.keywords and \
+                        norm(a0.func).split(".")[-1] in ("deque", "list", "tuple") and not m.callee_funcs(qf, a0):
+                    a0 = a0.args[0]
+                ok = a0 is not None and is_name(a0, p)
                 ctx.ob(rid, f"{qf.short}/seed-forwarded", ok, loc(qf, c),
                        "initial items forwarded to the queue constructor" if ok else
                        "queue constructed without the initial items", norm(c))
@@ -1018,7 +1023,7 @@ def check_seed(ctx, rid_seed, rid_unbounded, m, f, recv, cls):
     ok = ut_assign is not None and norm(ut_assign.value) in (f"len({recv}.queue)",)
     if ok:
         # order: unfinished_tasks is read from the seeded container (after it was seeded)
-        ok = q_assign.lineno < ut_assign.lineno
+        ok = comes_before(f.node, q_assign, ut_assign)
     ctx.ob(rid_seed, f"{f.short}/seeded-unfinished-tasks", ok, loc(f, q_assign),
            "unfinished_tasks seeded with the number of initial items" if ok else
            "queue seeded directly but unfinished_tasks is not set to the number of seeded items: join() returns before "
@@ -1335,7 +1340,7 @@ def rule_sentinels(ctx, rid, r):
         asg = [b for b in e.bindings.get(bound.id, []) if b[0] in ("assign", "aug")]
         for kind, expr, _p in asg:
             st = stmt_of(e.module, expr)
-            if not (st.lineno < r.pool_with.lineno and not inside(e.module, st, r.pool_with)):
+            if not (comes_before(e.node, st, r.pool_with) and not inside(e.module, st, r.pool_with)):
                 same = False
     ctx.ob(rid, f"{e.short}/sentinels==threads", same, loc(e, sl),
            f"pool size and sentinel count are the same value `{n1}`" if same else
@@ -1742,6 +1747,50 @@ def rule_nothing_blocks_under_lock(ctx, rid, r, user_reaching):
 
 
 # ------------------------------------------------------------------------------------------------ C10.F5 / C17.K2
+def _stop_guard_is_budget_test(m, e, cb, conds, errcount, limit_param):
+    """Is the conjunction of path conditions at the write of the stop flag the error-budget test - true exactly when the limit is
+    not None and the error count exceeds it?  Decided by truth table over limit in {None, 0, 1, 2} x count in 0..4, whatever the
+    spelling (`L is not None and c > L`, `c > L and L is not None`, `L is None or c <= L` negated ...).  The limit variable must
+    be the engine's max_errors parameter or a single-assignment local computed from it alone (a coercion)."""
+    if not errcount or not limit_param or not conds:
+        return False
+    def nm(t):
+        return {n.id for n in ast.walk(t) if isinstance(n, ast.Name)}
+    others = set()
+    for t, _pol in conds:
+        if errcount in nm(t):
+            others |= nm(t) - {errcount}
+    if len(others) != 1:
+        return False
+    lim = next(iter(others))
+    # the conditions that speak about the count and the limit (others - the stop test that returned earlier - are irrelevant here)
+    conds = [(t, pol) for t, pol in conds if nm(t) and nm(t) <= {errcount, lim}]
+    if lim != limit_param:
+        bs = [b for b in e.bindings.get(lim, []) if b[0] != "param"]
+        if len(bs) != 1 or bs[0][0] != "assign" or bs[0][2] or bs[0][1] is None or names_in(bs[0][1]) - {limit_param} - \
+                {n.func.id for n in ast.walk(bs[0][1]) if isinstance(n, ast.Call) and isinstance(n.func, ast.Name)} or limit_param not in names_in(bs[0][1]):
+            return False
+    allowed = (ast.BoolOp, ast.And, ast.Or, ast.UnaryOp, ast.Not, ast.Compare, ast.Name, ast.Constant, ast.Load, ast.Is, ast.IsNot, ast.Gt, ast.GtE,
+               ast.Lt, ast.LtE, ast.Eq, ast.NotEq)
+    for t, _pol in conds:
+        if not all(isinstance(n, allowed) for n in ast.walk(t)):
+            return False
+    for L in (None, 0, 1, 2):
+        for c in range(0, 5):
+            val = True
+            for t, pol in conds:
+                try:
+                    v = eval(compile(ast.Expression(body=t), "<guard>", "eval"), {"__builtins__": {}}, {errcount: c, lim: L})  # comparisons only
+                except TypeError:
+                    v = None  # e.g. `c > None`: the real code would raise - not the budget test
+                if v is None:
+                    return False
+                val = val and (bool(v) if pol else not bool(v))
+            if val != (L is not None and c > L):
+                return False
+    return True
+
+
 def rule_stop_discipline(ctx, rid, r):
     m = ctx.model
     cb, e = r.nodecb, r.engine
@@ -1775,12 +1824,7 @@ def rule_stop_discipline(ctx, rid, r):
             inlock = any(inside(mod, n, w) for w, _ in locks)
             conds = path_condition(mod, n, cb.node)
             me = [p for p in e.params if "error" in p]
-            guard_ok = False
-            for t, pol in conds:
-                txt = norm(t)
-                if pol and r.errcount and txt in (f"max_errors is not None and {r.errcount} > max_errors",
-                                                  f"{r.errcount} > max_errors and max_errors is not None"):
-                    guard_ok = True
+            guard_ok = _stop_guard_is_budget_test(m, e, cb, conds, r.errcount, me[0] if me else None)
             ctx.ob(rid, f"{cb.short}/{r.stop}-guard", inlock and guard_ok, loc(cb, n),
                    "set under the failure lock exactly when max_errors is not None and error_count > max_errors"
                    if inlock and guard_ok else
